@@ -769,7 +769,9 @@ func (q *qgen) queryText(graphs []string) string {
 			c = q.clauseFrom(q.g.uni[ids[r.intn(len(ids))]], vm, level)
 		}
 		e := q.lastExp
-		if q.mode == "optional" && i > 0 && r.chance(1, 2) {
+		if i > 0 && ((q.mode == "optional" && r.chance(1, 2)) ||
+			// OPTIONAL under the other stages too: NULLs reach GROUP BY keys, aggregates, ORDER BY keys, HAVING operands
+			(!q.meta && (q.mode == "group" || q.mode == "having" || q.mode == "order" || q.mode == "limit") && r.chance(1, 7))) {
 			c = "optional { " + c + " }"
 			e = "1" + e[1:]
 		}
@@ -786,7 +788,7 @@ func (q *qgen) queryText(graphs []string) string {
 	// The rows of a table cannot represent "one solution binding nothing": a pattern whose mandatory
 	// prefix binds nothing is outside what OPTIONAL can express here (known finding D35, exercised by its
 	// own witness); the first clause of an OPTIONAL pattern therefore binds something.
-	if q.mode == "optional" && len(bindingsIn(strings.NewReplacer(`"p"`, "", `"q"`, "").Replace(cls[0]))) == 0 {
+	if strings.Contains(strings.Join(cls, " "), "optional {") && len(bindingsIn(strings.NewReplacer(`"p"`, "", `"q"`, "").Replace(cls[0]))) == 0 {
 		cls[0] = "?s0 ?p0 ?o0"
 		exps[0] = encClause(&semantic.GraphClause{SBinding: "?s0", PBinding: "?p0", OBinding: "?o0"})
 	}
